@@ -23,7 +23,7 @@
    C20_equals_numeric, C20_equals_kinds, C20_equals_refl_scalars) -- eval_spec uses those very
    functions. *)
 (* source tie by translation: the lemmas of these files are obligations of this property *)
-From Soy Require Import Proofs.SourceTieExpr Proofs.SourceTieQuote Proofs.SourceTieData Proofs.SourceTieHtml.
+From Soy Require Import Proofs.SourceTieExpr Proofs.SourceTieQuote Proofs.SourceTieData Proofs.SourceTieHtml Proofs.SourceTieScope Proofs.SourceTieUnquote.
 From Soy Require Import Model.Bytes Model.Num Model.Values Model.Outcome Model.Ast Model.Interp
   Model.Escape Model.Token Model.ExprParser Model.ExprTrans Spec.Expr Spec.ExprSyntax Generated.Tables
   Proofs.EvalProofs Proofs.EvalFuncProofs Proofs.EvalMainProofs Proofs.ExprParserRules Proofs.ExprParserProofs Proofs.EvalSyntaxProofs Proofs.EvalTotalProofs.
@@ -40,9 +40,12 @@ Open Scope N_scope.
    lists/maps created on the way counted from the same next_id, and the same next_id afterwards);
    if the Spec gives no value, the walker returns an error.  In both cases the walker has written
    nothing and left scope, mode and writer untouched (frame_eq).
-   Guard: the Spec's third outcome OutOfModel (a float result that is not dyadic / not a binary64,
-   an integer result outside int64, randomInt's value, round with digits <> 0) is outside the
-   statement; wf_expr: distinct keys in a map literal, referenced globals defined, "$ij" is EIj. *)
+   Guard: the Spec's third outcome OutOfModel (an integer result outside int64, randomInt's value,
+   round with digits <> 0, an int beyond 2^53 used as a float, a float beyond the exponent range of
+   the model, round/floor/ceiling/min/max where their exact computation is not a binary64) is outside
+   the statement -- an inexact result of + - * / is NOT: both sides round it to the nearest binary64,
+   ties to even (Num.fl_add_r ...); wf_expr: distinct keys in a map literal, referenced globals
+   defined, "$ij" is EIj. *)
 Theorem C01_eval_impl_spec : forall G ij cf fuel e st,
   c_ij cf = ij -> ExprTrans.wf_expr G e = true -> (height e <= fuel)%nat ->
   (forall v n', eval_spec G (flatten (ctx st)) ij e (next_id st) = Ok (v, n') ->
@@ -74,6 +77,23 @@ Theorem C01_function_table : forall f,
   fn_is (fn_name f) n_index || fn_is (fn_name f) n_isFirst || fn_is (fn_name f) n_isLast = false.
 Proof. intros f; split; [apply fn_arities_table | apply fn_not_loop]. Qed.
 Print Assumptions C01_function_table.
+
+(* ... and the converse: the table regenerated from soyhtml.Funcs on this run holds NO other name.  Every
+   name the interpreter can call (func_arities name = Some ar) is a function of the Spec (fn_of_name finds
+   it) with the Spec's arities, and on every argument list apply_func behaves as that function's Spec.
+   A function added to soyhtml.Funcs without a Spec in Spec/Expr.v, or a changed arity, breaks the
+   finite computation behind this theorem (EvalFuncProofs.html_funcs_specified). *)
+Theorem C01_function_table_complete : forall name ar args,
+  func_arities name = Some ar ->
+  exists f, fn_of_name name = Some f /\ fn_name f = name /\ ar = map N.of_nat (fn_arities f) /\
+            orel (r <- apply_fn_spec f args ;; Ok (fres_of r)) (apply_func name args).
+Proof. exact function_table_spec. Qed.
+Print Assumptions C01_function_table_complete.
+
+Example C01_function_table_nonvacuous :
+  func_arities (b "range") = Some [1; 2; 3] /\ fn_of_name (b "range") = Some FRange /\ fn_of_name (b "index") = None /\
+  length html_funcs = length all_fns.
+Proof. vm_compute. repeat split; reflexivity. Qed.
 
 (* ---- syntax (cited) and the composition ---- *)
 
@@ -213,7 +233,7 @@ Theorem C01_div_mod : forall a c v,
 Proof.
   intros a c v. split.
   - cbn [sem_strict]. unfold sem_div. destruct (number_of a); cbn; try discriminate.
-    destruct (number_of c); cbn; try discriminate. destruct (fl_div v0 v1); cbn; try discriminate.
+    destruct (number_of c); cbn; try discriminate. destruct (fl_div_r v0 v1); cbn; try discriminate.
     intros [= <-]. eauto.
   - cbn [sem_strict]. unfold sem_mod, no_value. destruct a; try discriminate. destruct c; try discriminate.
     destruct (Z.eqb_spec z0 0); [discriminate|]. unfold int_result.
